@@ -32,7 +32,7 @@ def run_batches(prop, verif_seed, tier, budget_s=None, workers=None, extra_cfg=N
     deadline = (t0 + budget_s) if budget_s else None
     agg = {
         'evaluations': 0, 'digests': set(), 'nontrivial_digests': set(), 'counters': {}, 'states': set(),
-        'violations': [], 'harness_errors': [], 'per_class': {}, 'samples': [], 'ops': 0,
+        'violations': [], 'harness_errors': [], 'per_class': {}, 'samples': [], 'ops': 0, 'schedules': set(),
     }
     batch = Batch(workers)
     cfg = {'verif_seed': verif_seed, 'sample': conf.get('sample', 2)}
@@ -57,6 +57,8 @@ def run_batches(prop, verif_seed, tier, budget_s=None, workers=None, extra_cfg=N
                 agg['nontrivial_digests'].add(d)
             merge_counters(agg['counters'], r['counters'])
             agg['states'].update(r.get('states', ()))
+            if r.get('schedule_hash') is not None:
+                agg['schedules'].add(r['schedule_hash'])
             agg['ops'] += r.get('nops', 0)
             pc = agg['per_class'].setdefault(r['cls'], {'runs': 0, 'violating_runs': 0})
             pc['runs'] += 1
